@@ -159,6 +159,10 @@ class C16(Property):
             c.update(scan=[rng.randint(4, 8), rng.randint(4, 8)], scan_sampling=rng.choice([0.2, 0.25, 0.4]), gpts=[rng.randint(5, 9), rng.randint(5, 9)],
                      sigma=rng.choice([0.1, 0.3, 0.5, [0.2, 0.4]]), inner=rng.choice([0.0, 5.0, 10.0]), width=rng.choice([10.0, 20.0, 40.0]),
                      lazy=rng.random() < 0.15)
+            # position of the two scan axes among the ensemble axes (o = an ordinal axis of 2 members): abTEM's own simulations put
+            # them last, the public constructors accept any order (round-3 seed C16-r3 assumed "trailing")
+            c["layout"] = rng.choice(["xy", "xy", "oxy", "xyo", "xoy"])
+            c["scan_sampling_y"] = rng.choice([c["scan_sampling"], c["scan_sampling"], 0.3])
         return c
 
     def oracle(self, ctx: Ctx, c):
@@ -278,10 +282,15 @@ class C16(Property):
                 return False
             return True
         # source size filtering commutes with integration
-        scan = [ScanAxis(sampling=c["scan_sampling"]), ScanAxis(sampling=c["scan_sampling"])]
+        layout = c.get("layout", "xy")
+        axis_of = {"x": ScanAxis(label="x", sampling=c["scan_sampling"]), "y": ScanAxis(label="y", sampling=c.get("scan_sampling_y", c["scan_sampling"])),
+                   "o": OrdinalAxis(values=(0, 1))}
+        size_of = {"x": c["scan"][0], "y": c["scan"][1], "o": 2}
+        scan = [axis_of[ch] for ch in layout]
+        ens_shape = tuple(size_of[ch] for ch in layout)
         sig = c["sigma"] if not isinstance(c["sigma"], list) else tuple(c["sigma"])
         if c["kind"] == "source_dp":
-            a = rng.random(tuple(c["scan"]) + tuple(c["gpts"])).astype(np.float32)
+            a = rng.random(ens_shape + tuple(c["gpts"])).astype(np.float32)
             d = DiffractionPatterns(a, sampling=0.05, fftshift=True, metadata={"energy": 100e3}, ensemble_axes_metadata=scan)
             if c.get("lazy"):
                 d = d.ensure_lazy()
@@ -291,13 +300,17 @@ class C16(Property):
             two = arr_of(d.integrate_radial(inner, outer).gaussian_filter(sig))
         else:
             nr, na = rng.integers(2, 6), rng.integers(1, 5)
-            a = rng.random(tuple(c["scan"]) + (int(nr), int(na))).astype(np.float32)
+            a = rng.random(ens_shape + (int(nr), int(na))).astype(np.float32)
             p = PolarMeasurements(a, radial_sampling=2.0, azimuthal_sampling=2 * np.pi / na, radial_offset=0.0, azimuthal_offset=0.0,
                                   ensemble_axes_metadata=scan, metadata={"energy": 100e3})
             hi = 2.0 * rng.integers(1, int(nr) + 1)
             one = arr_of(p.gaussian_source_size(sig).integrate_radial(0.0, float(hi)))
             two = arr_of(p.integrate_radial(0.0, float(hi)).gaussian_filter(sig))
         ctx.count(f"conf-{c['kind']}:lazy={bool(c.get('lazy'))}")
+        ctx.count(f"conf-source-layout:{layout}")
+        if one.shape != two.shape:
+            ctx.violation(f"source-size-does-not-commute:{c['kind']}", c, {"shapes": [list(one.shape), list(two.shape)]})
+            return False
         scale = float(np.abs(two).max()) or 1.0
         if exceeds(maxdiff(one, two), 2e-5 * scale) or not np.isfinite(scale):
             ctx.violation(f"source-size-does-not-commute:{c['kind']}", c, {"max_abs_diff": maxdiff(one, two), "scale": scale})
